@@ -16,7 +16,8 @@ def build(profile='dev'):
     shutil.copyfile(os.path.join(REPO, 'Cargo.lock'), os.path.join(REPLAY_SRC, 'Cargo.lock'))
     env = dict(os.environ)
     env['CARGO_NET_OFFLINE'] = 'true'
-    env.pop('RUSTFLAGS', None)
+    # the replay binary is the only build that sees the read-only cache accessors (hook guard reinterpretcat_vrp_verif)
+    env['RUSTFLAGS'] = '--cfg reinterpretcat_vrp_verif'
     cmd = ['cargo', 'build', '--offline', '--target-dir', TARGET] + (['--release'] if profile == 'release' else [])
     p = subprocess.run(cmd, cwd=REPLAY_SRC, env=env, capture_output=True, text=True, timeout=3600)
     binary = os.path.join(TARGET, 'release' if profile == 'release' else 'debug', 'verif-replay')
@@ -77,6 +78,26 @@ def simulate(case, jobs):
     return arr, dep, feasible, total_dist, dep[-1] - dep[0], waiting
 
 
+def reference_caches(case, jobs, arr):
+    """Latest arrival and waiting suffix sums by backward recomputation (None for depot activities)."""
+    dur = lambda a, b: lookup(case.get('dur'), case.get('dur_default'), a, b)
+    closed = case.get('closed', True)
+    n = len(jobs) + 1
+    la, w = [None] * (n + (1 if closed else 0)), [None] * (n + (1 if closed else 0))
+    nxt_la, nxt_loc = (val(case['shift_end']), case.get('lend', 0)) if closed else (MAXF, None)
+    wsum = 0.0
+    for i in range(len(jobs), 0, -1):
+        j = jobs[i - 1]
+        if nxt_loc is None or nxt_la == MAXF:
+            la_i = val(j['twe'])
+        else:
+            la_i = min(val(j['twe']), nxt_la - dur(j['loc'], nxt_loc) - val(j['dur']))
+        wsum += max(val(j['tws']) - arr[i], 0.0)
+        la[i], w[i] = la_i, wsum
+        nxt_la, nxt_loc = la_i, j['loc']
+    return la, w
+
+
 def load_profile(case, jobs):
     """Load on board after each job activity and the maximum, for static/dynamic single-dimension demand."""
     start = sum((j.get('demand') or {}).get('sd', 0) for j in jobs)
@@ -108,6 +129,28 @@ def evaluate(case, native):
         return None, 'no native result'
     if 'panic' in native:
         return True, 'the real code panicked: ' + native['panic'][-300:]
+    if kind == 'time_aware':
+        ms = sorted(case['matrices'], key=lambda m: m['timestamp'])
+        cell = case['from'] * case['size'] + case['to']
+        q = case['query']
+        ts = [m['timestamp'] for m in ms]
+        if q in ts:
+            i = ts.index(q)
+            exp_d, exp_t = ms[i]['distances'][cell], (ms[i]['durations'][cell], ms[i]['durations'][cell])
+        elif q < ts[0]:
+            exp_d, exp_t = ms[0]['distances'][cell], (ms[0]['durations'][cell],) * 2
+        elif q > ts[-1]:
+            exp_d, exp_t = ms[-1]['distances'][cell], (ms[-1]['durations'][cell],) * 2
+        else:
+            i = max(j for j in range(len(ts)) if ts[j] < q)
+            exp_d = ms[i]['distances'][cell]
+            a, b = ms[i]['durations'][cell], ms[i + 1]['durations'][cell]
+            exp_t = (min(a, b), max(a, b))
+        if native['distance'] != exp_d:
+            return True, f"distance at t={q}: real {native['distance']} vs specified {exp_d} (timestamps {ts})"
+        if not (exp_t[0] <= native['duration'] <= exp_t[1]):
+            return True, f"duration at t={q}: real {native['duration']} outside specified {exp_t} (timestamps {ts})"
+        return False, 'provider agrees with the specification on this case'
     if kind == 'goal_order':
         import struct
         order = native['order']
@@ -140,7 +183,30 @@ def evaluate(case, native):
                 return True, f'schedule of activity {i}: real ({a},{d}) vs simulation ({arr[i]},{dep[i]})'
         if obs['total_distance'] != td or obs['total_duration'] != tdur:
             return True, f"totals: real ({obs['total_distance']},{obs['total_duration']}) vs simulation ({td},{tdur})"
-        return False, 'schedule and totals agree with the simulation (latest-arrival/waiting caches are not observable through the public API)'
+        ref_la, ref_w = reference_caches(case, jobs, arr)
+        for i, (la, w) in enumerate(zip(obs.get('latest_arrival', []), obs.get('waiting', []))):
+            if i < len(ref_la) and ref_la[i] is not None:
+                if la != ref_la[i]:
+                    return True, f'cached latest arrival of activity {i}: real {la} vs recomputation {ref_la[i]}'
+                if w != ref_w[i]:
+                    return True, f'cached waiting of activity {i}: real {w} vs recomputation {ref_w[i]}'
+        return False, 'schedule, totals and the latest-arrival/waiting caches agree with the recomputation'
+    if kind == 'deep_copy':
+        dc = native.get('deep_copy') or {}
+        if dc.get('stale_original') != dc.get('stale_copy') or dc.get('fresh_original') != dc.get('fresh_copy'):
+            return True, f'deep_copy changes the stale flag: {dc}'
+        if dc.get('copy_schedule') != native['pre']['schedule']:
+            return True, 'deep_copy changes the schedules'
+        return False, 'copy has the same stale flag and schedules'
+    if kind == 'total_cost':
+        vc, dc = case.get('vehicle_costs') or {}, case.get('driver_costs') or {}
+        g = lambda c, k: float(c.get(k, 0) or 0)
+        td, t = float(case['set_total_distance']), float(case['set_total_duration'])
+        exp = sum(g(c, 'fixed') + g(c, 'per_distance') * td + max(g(c, 'per_driving_time'), g(c, 'per_service_time'), g(c, 'per_waiting_time')) * t
+                  for c in (vc, dc))
+        if native.get('total_cost') != exp:
+            return True, f"total cost: real {native.get('total_cost')} vs fixed + distance*rate + duration*rate = {exp} (vehicle {vc}, driver {dc}, d={td}, T={t})"
+        return False, 'total cost agrees'
     target, leg = case.get('target'), case.get('leg', 0)
     post = jobs[:leg] + [target] + jobs[leg:] if target else jobs
     if kind == 'tw_gate':
@@ -178,6 +244,15 @@ def evaluate(case, native):
         if est != delta:
             return True, f'cost estimate {est} but total cost changes by {delta}'
         return False, 'estimate equals realised change'
+    if kind == 'capacity_caches':
+        start, profile, _ = load_profile(case, jobs)
+        full = [start] + profile + ([profile[-1] if profile else start] if case.get('closed', True) else [])
+        loads = native['pre']['loads']
+        for i, (c, p, f) in enumerate(loads):
+            exp = (full[i], max([0] + full[:i + 1]), max(full[i:]))
+            if (c, p, f) != exp:
+                return True, f'load caches at activity {i}: real (current,max_past,max_future)={(c, p, f)} vs recomputation {exp}'
+        return False, 'load caches agree with the recomputed profile'
     if kind == 'capacity_gate':
         cap = case.get('capacity')
         _, _, peak0 = load_profile(case, jobs)
